@@ -399,6 +399,7 @@ func runC02(t fataler, mode c03Mode, threshold int, ops []outOp, closeCode int, 
 	}
 	p.start(e)
 	conn := lc.C
+	defer lastWriters.Delete(conn)
 	ctx := context.Background()
 	// a library reader so that Pongs are consumed
 	e.Go(func() {
